@@ -555,4 +555,333 @@ theorem microR_ok (ovf : Bool → Nat → Int) (st : St) (h : Handler) (s : Stat
     | done resp => exact afterMicro_ok _ _ r r1 cc b1 i1 s1 (fun e => by simp [target] at e)
     | abort w => simp [MicroROK]
 
+/-! ## one event-loop callback -/
+
+def eraseR : StepResR → StepRes
+  | .wait st c k h _ => .wait st c k h
+  | .done resp _ => .done resp
+  | .abort w => .abort w
+
+/-- `stepR` decides exactly as `Model.Http.step` -/
+theorem stepR_erase (ovf : Bool → Nat → Int) : ∀ (f : Nat) (st : St) (h : Handler) (s : Status) (buf : Bytes) (c0 : Nat) (r : RSt),
+    eraseR (stepR ovf f st h s buf c0 r) = step ovf f st h s buf c0 := by
+  intro f
+  induction f with
+  | zero => intro st h s buf c0 r; rfl
+  | succ f ih =>
+    intro st h s buf c0 r
+    simp only [stepR, step]
+    cases micro ovf st h s buf with
+    | goto st' c h' => exact ih _ _ _ _ _ _
+    | wait st' c k h' => rfl
+    | done resp => rfl
+    | abort w => rfl
+
+def StepRRes (r : RSt) (cc : Nat) : StepResR → Prop
+  | .wait _ _ _ h' r' => Main r' cc h' ∧ r'.rdReg ≠ .idle ∧ SameCb r r'
+  | .done resp r' => ∃ n, Ended r' cc (r.ncb + 1) (r.handedBody + n) ∧ n ≤ 1 ∧
+      ((∀ x b, resp = some x → x.body = some b → False) → n = 0)
+  | .abort _ => True
+
+theorem stepR_res (ovf : Bool → Nat → Int) (cc : Nat) : ∀ (f : Nat) (st : St) (h : Handler) (s : Status) (buf : Bytes) (c0 : Nat)
+    (r : RSt), Main r cc h → r.rdReg = .idle → StepRRes r cc (stepR ovf f st h s buf c0 r) := by
+  intro f
+  induction f with
+  | zero => intro st h s buf c0 r _ _; simp [stepR, StepRRes]
+  | succ f ih =>
+    intro st h s buf c0 r hm hidle
+    have hk := microR_ok ovf st h s buf r cc hm hidle
+    simp only [stepR]
+    generalize micro ovf st h s buf = m at hk
+    cases m with
+    | goto st' c h' =>
+      simp only [MicroROK] at hk
+      obtain ⟨k1, k2, k3⟩ := hk
+      have := ih st' h' .ok (buf.drop c) (c0 + c) _ k1 k2
+      (try dsimp only)
+      generalize stepR ovf f st' h' .ok (buf.drop c) (c0 + c) (microR ovf st h s buf r) = res at this
+      cases res with
+      | wait st'' c' k h'' r' =>
+        simp only [StepRRes] at this ⊢
+        exact ⟨this.1, this.2.1, this.2.2.1.trans k3.1, this.2.2.2.trans k3.2⟩
+      | done resp r' =>
+        simp only [StepRRes] at this ⊢
+        rw [k3.1, k3.2] at this; exact this
+      | abort w => simp [StepRRes]
+    | wait st' c k h' => simpa [StepRRes, MicroROK] using hk
+    | done resp => simpa [StepRRes, MicroROK] using hk
+    | abort w => simp [StepRRes]
+
+/-! ## the writer's callback -/
+
+/-- `writbuf` up to the point where it either pokes the queue or calls `fail` -/
+def wmid (r : RSt) : RSt :=
+  ({ r.check r.wcur "writbuf: assert(W->write_cookie != NULL)" with wcur := false }.free .wbufData).free .wbuf
+
+theorem writbuf_eq (r : RSt) (ok : Bool) : writbuf r ok = if ok then poke (wmid r) else failR (wmid r) := rfl
+
+theorem base_wmid (r : RSt) (cc : Nat) (hb : Base r cc) (hw : r.wcur = true) :
+    Base (wmid r) cc ∧ SameCb r (wmid r) ∧ (wmid r).rdReg = r.rdReg ∧ (wmid r).pResHead = r.pResHead ∧
+    (wmid r).pHeaders = r.pHeaders := by
+  obtain ⟨⟨hok, hcnt, hconn, hcr, hnw, hnr, hfds, hone⟩, b1, b2, b3, b4, b5⟩ := hb
+  have c1 := hcnt .wbuf
+  have c2 := hcnt .wbufData
+  simp only [expect, hw, Bool.toNat_true] at c1 c2
+  refine ⟨⟨⟨?_, ?_, hconn, hcr, ?_, hnr, hfds, hone⟩, b1, b2, b3, b4, b5⟩, ⟨rfl, rfl⟩, rfl, rfl, rfl⟩
+  · simp [wmid, RSt.free, RSt.check, RSt.has, or_none, hok, hw, c1, c2, List.count_erase]
+  · intro k
+    have := hcnt k
+    cases k <;> simp_all [wmid, expect, RSt.free, RSt.check, List.count_erase]
+  · intro hc; simp [wmid, RSt.free, RSt.check] at hc; rw [b2] at hc; cases hc
+
+theorem base_poke (r : RSt) (cc : Nat) (hb : Base r cc) :
+    Base (poke r) cc ∧ SameCb r (poke r) ∧ (poke r).rdReg = r.rdReg ∧ (poke r).pResHead = r.pResHead ∧
+    (poke r).pHeaders = r.pHeaders := by
+  obtain ⟨⟨hok, hcnt, hconn, hcr, hnw, hnr, hfds, hone⟩, b1, b2, b3, b4, b5⟩ := hb
+  simp only [poke]
+  split
+  · exact ⟨⟨⟨hok, hcnt, hconn, hcr, hnw, hnr, hfds, hone⟩, b1, b2, b3, b4, b5⟩, ⟨rfl, rfl⟩, rfl, rfl, rfl⟩
+  · rename_i hc
+    simp only [Bool.or_eq_true, beq_iff_eq, not_or] at hc
+    refine ⟨⟨⟨hok, ?_, hconn, hcr, ?_, hnr, hfds, hone⟩, b1, b2, b3, b4, b5⟩, ⟨rfl, rfl⟩, rfl, rfl, rfl⟩
+    · intro k
+      have := hcnt k
+      have h1 : r.wcur = false := by simpa using hc.1
+      cases k <;> simp_all [expect] <;> omega
+    · intro hc'; simp only at hc'; rw [b2] at hc'; cases hc'
+
+theorem main_writesR (cc : Nat) (h : Handler) : ∀ (n : Nat) (r : RSt), Main r cc h →
+    Main (writesR n r) cc h ∧ SameCb r (writesR n r) ∧ (writesR n r).rdReg = r.rdReg := by
+  intro n
+  induction n with
+  | zero => intro r hm; exact ⟨hm, ⟨rfl, rfl⟩, rfl⟩
+  | succ n ih =>
+    intro r hm
+    simp only [writesR]
+    split
+    · rename_i hw
+      obtain ⟨m1, m2, m3, m4, m5⟩ := base_wmid r cc hm.base hw
+      obtain ⟨p1, p2, p3, p4, p5⟩ := base_poke _ cc m1
+      have hm' : Main (writbuf r true) cc h := by
+        rw [writbuf_eq]; simp only [if_true]
+        exact ⟨p1, fun e => by rw [p4, p5, m4, m5]; exact hm.hdr e⟩
+      obtain ⟨i1, i2, i3⟩ := ih _ hm'
+      refine ⟨i1, ⟨i2.1.trans ?_, i2.2.trans ?_⟩, i3.trans ?_⟩
+      · rw [writbuf_eq]; simp only [if_true]; exact p2.1.trans m2.1
+      · rw [writbuf_eq]; simp only [if_true]; exact p2.2.trans m2.2
+      · rw [writbuf_eq]; simp only [if_true]; exact p3.trans m3
+    · exact ⟨hm, ⟨rfl, rfl⟩, rfl⟩
+
+theorem base_readFired (r : RSt) (cc : Nat) (hb : Base r cc) (hreg : r.rdReg ≠ .idle) :
+    Base (readFired r) cc ∧ SameCb r (readFired r) ∧ (readFired r).rdReg = .idle ∧
+    (readFired r).pResHead = r.pResHead ∧ (readFired r).pHeaders = r.pHeaders := by
+  obtain ⟨⟨hok, hcnt, hconn, hcr, hnw, hnr, hfds, hone⟩, b1, b2, b3, b4, b5⟩ := hb
+  refine ⟨⟨⟨?_, hcnt, hconn, hcr, hnw, fun _ => rfl, hfds, hone⟩, b1, b2, b3, b4, b5⟩, ⟨rfl, rfl⟩, rfl, rfl, rfl⟩
+  simp [readFired, RSt.check, or_none, hok, hreg]
+
+/-! ## the whole run -/
+
+/-- no body buffer went to the caller with this callback argument -/
+def NoBuffer (resp : Option Resp) : Prop := ∀ x b, resp = some x → x.body = some b → False
+
+/-- the verdict on a finished request -/
+def OutcomeOK (max : Nat) : OutcomeR → Prop
+  | .ended cbs cancelled r _ =>
+    r.err = none ∧ (∀ k, r.live.count k = 0) ∧ r.connReg = false ∧ r.rdReg = .idle ∧ r.wcur = false ∧ r.fds = 0 ∧
+    r.ncb = cbs.length ∧ r.handedBody ≤ 1 ∧
+    (if cancelled then cbs = [] ∧ r.handedBody = 0
+     else ∃ resp, cbs = [resp] ∧ RespOK max resp ∧ (NoBuffer resp → r.handedBody = 0))
+  | .abort _ _ => False
+
+theorem arrive_spec (a : Arrival) (k rlen b : Nat) (hb : b ≤ rlen) (hk : b < k) :
+    b ≤ (arrive a k rlen b).2 ∧ (arrive a k rlen b).2 ≤ rlen ∧
+    ((arrive a k rlen b).1 = .ok → k ≤ (arrive a k rlen b).2) := by
+  simp only [arrive]
+  rw [if_neg (by omega)]
+  cases a with
+  | more extra =>
+    (try dsimp only)
+    split
+    · refine ⟨?_, ?_, fun _ => ?_⟩ <;> (try dsimp only) <;> split <;> omega
+    · exact ⟨hb, Nat.le_refl _, fun hc => by cases hc⟩
+  | eof => exact ⟨Nat.le_refl _, hb, fun hc => by cases hc⟩
+  | err => exact ⟨Nat.le_refl _, hb, fun hc => by cases hc⟩
+
+theorem ended_outcome (max : Nat) (r : RSt) (resp : Option Resp) (tr : List Snap) (n : Nat)
+    (he : Ended r 0 1 n) (hn : n ≤ 1) (hr : RespOK max resp) (hz : NoBuffer resp → n = 0) :
+    OutcomeOK max (.ended [resp] false r tr) := by
+  obtain ⟨e1, e2, e3, e4, e5, e6, e7, e8⟩ := he
+  refine ⟨e1, fun k => by rw [e2]; split <;> rfl, e3, e4, e5, e6, by simpa using e7, by omega, ?_⟩
+  simp only [Bool.false_eq_true, if_false]
+  exact ⟨resp, rfl, hr, fun h => by rw [e8]; exact hz h⟩
+
+theorem loopR_ok {σ : Type} (ovf : Bool → Nat → Int) (oracle : σ → Nat → Nat → σ × Turn) :
+    ∀ (f : Nat) (o : σ) (st : St) (h : Handler) (rest : Bytes) (rlen b c k : Nat) (tr : List Snap) (r : RSt),
+    rlen = rest.length → b ≤ rlen → b < k → InvBuf st h (rest.take b) → rlen - b + 1 ≤ f →
+    Main r 0 h → r.rdReg ≠ .idle → r.ncb = 0 → r.handedBody = 0 →
+    OutcomeOK st.max (loopR ovf oracle f o st h rest rlen b c k tr r) := by
+  intro f
+  induction f with
+  | zero => intro o st h rest rlen b c k tr r _ _ _ _ hf; omega
+  | succ f ih =>
+    intro o st h rest rlen b c k tr r hrl hb hk hi hfuel hm hreg hncb hhb
+    simp only [loopR]
+    generalize oracle o c k = ot
+    obtain ⟨o', t⟩ := ot
+    (try dsimp only)
+    obtain ⟨w1, w2, w3⟩ := main_writesR 0 h t.wrote r hm
+    generalize writesR t.wrote r = rw at w1 w2 w3
+    have hncb' : rw.ncb = 0 := w2.1.trans hncb
+    have hhb' : rw.handedBody = 0 := w2.2.trans hhb
+    split
+    · -- the write in progress fails: fail(H) from the writer
+      rename_i hwf
+      simp only [Bool.and_eq_true] at hwf
+      obtain ⟨m1, m2, _, _, _⟩ := base_wmid rw 0 w1.base hwf.2
+      have := fail_spec (wmid rw) 0 m1.cons
+      rw [m1.noConn, m2.1, m2.2, hncb', hhb'] at this
+      rw [writbuf_eq]; simp only [Bool.false_eq_true, if_false]
+      exact ended_outcome st.max _ none _ 0 (by simpa using this) (by omega) (by simp [RespOK]) (fun _ => rfl)
+    · split
+      · -- the caller cancels
+        have := cancel_spec rw 0 w1.base.cons
+        rw [w1.base.noConn, hncb', hhb'] at this
+        obtain ⟨e1, e2, e3, e4, e5, e6, e7, e8⟩ := this
+        refine ⟨e1, fun k => by rw [e2]; simp, e3, e4, e5, e6, by simpa using e7, by omega, ?_⟩
+        simpa using e8
+      · -- the wait completes
+        obtain ⟨f1, f2, f3, f4, f5⟩ := base_readFired rw 0 w1.base (by rw [w3]; exact hreg)
+        have hmf : Main (readFired rw) 0 h := ⟨f1, fun e => by rw [f4, f5]; exact w1.hdr e⟩
+        obtain ⟨a1, a2, a3⟩ := arrive_spec t.arrival k rlen b hb hk
+        generalize arrive t.arrival k rlen b = sb at a1 a2 a3
+        obtain ⟨s, b2⟩ := sb
+        simp only at a1 a2 a3 ⊢
+        have hsl : (rest.take b2).length = b2 := by rw [List.length_take]; omega
+        have hi2 : InvBuf st h (rest.take b2) := invBuf_mono hi (by rw [hsl, List.length_take]; omega)
+        have hso := step_ok ovf (b2 + 1) st h s (rest.take b2) 0 hi2 (by omega)
+        have hsr := stepR_res ovf 0 (b2 + 1) st h s (rest.take b2) 0 (readFired rw) hmf f3
+        rw [← stepR_erase ovf (b2 + 1) st h s (rest.take b2) 0 (readFired rw)] at hso
+        generalize hres : stepR ovf (b2 + 1) st h s (rest.take b2) 0 (readFired rw) = res at hso hsr
+        cases res with
+        | done resp r' =>
+          simp only [eraseR, StepOK] at hso
+          simp only [StepRRes] at hsr
+          obtain ⟨n, hn1, hn2, hn3⟩ := hsr
+          rw [f2.1, f2.2, hncb', hhb'] at hn1
+          exact ended_outcome st.max r' resp _ n (by simpa using hn1) hn2 hso hn3
+        | abort w => simp [eraseR, StepOK] at hso
+        | wait st' c' k' h' r' =>
+          simp only [eraseR, StepOK] at hso
+          simp only [StepRRes] at hsr
+          obtain ⟨_, hc, hk', hmax, hinv⟩ := hso
+          obtain ⟨hm', hreg', hsame'⟩ := hsr
+          rw [hsl] at hc hk'
+          simp only [Nat.sub_zero] at hc hk' hinv
+          have hsok : s = .ok := by
+            by_cases hs : s = .ok
+            · exact hs
+            · obtain ⟨rr, hr⟩ := step_not_ok ovf b2 st h s (rest.take b2) 0 hs
+              have := congrArg eraseR hres
+              rw [stepR_erase, hr] at this; cases this
+          have hkb := a3 hsok
+          have hrl' : rlen - c' = (rest.drop c').length := by rw [List.length_drop]; omega
+          have hdl : ((rest.take b2).drop c').length = b2 - c' := by rw [List.length_drop, hsl]
+          have hi3 : InvBuf st' h' ((rest.drop c').take (b2 - c')) :=
+            invBuf_mono hinv (by rw [hdl, List.length_take]; omega)
+          have := ih o' st' h' (rest.drop c') (rlen - c') (b2 - c') c' k' (snap k' r' :: tr) r' hrl' (by omega)
+            (by omega) hi3 (by omega) hm' hreg' (hsame'.1.trans (f2.1.trans hncb')) (hsame'.2.trans (f2.2.trans hhb'))
+          rw [hmax] at this; exact this
+
+/-! ## from `http_request()` on -/
+
+theorem cons_httpRequest : Cons httpRequest 1 := by
+  refine ⟨rfl, fun k => (by cases k <;> rfl), fun _ => ⟨rfl, rfl⟩, fun _ => rfl, fun _ => ⟨rfl, rfl⟩, fun _ => rfl, rfl,
+    fun h => (by cases h)⟩
+
+theorem cons_refused : Cons { useH (connFired httpRequest false) with pConnect := false } 1 := by
+  refine ⟨rfl, fun k => (by cases k <;> rfl), fun h => (by cases h), fun h => (by cases h), fun _ => ⟨rfl, rfl⟩,
+    fun _ => rfl, rfl, fun h => (by cases h)⟩
+
+theorem main_connected (hasBody : Bool) :
+    Main (callbackConnected (connFired httpRequest true) true hasBody) 1 .readHeader ∧
+    (callbackConnected (connFired httpRequest true) true hasBody).rdReg = .idle ∧
+    (callbackConnected (connFired httpRequest true) true hasBody).ncb = 0 ∧
+    (callbackConnected (connFired httpRequest true) true hasBody).handedBody = 0 := by
+  cases hasBody <;>
+  · refine ⟨⟨⟨⟨rfl, fun k => (by cases k <;> rfl), fun h => (by cases h), fun h => (by cases h), fun h => (by cases h),
+      fun h => (by cases h), rfl, fun _ => rfl⟩, rfl, rfl, rfl, rfl, rfl⟩, fun _ => ⟨rfl, rfl⟩⟩, rfl, rfl, rfl⟩
+
+/-- `network_connect` frees its cookie when `callback_connected` has returned -/
+theorem ended_free_connect (r : RSt) (n hb : Nat) (he : Ended r 1 n hb) : Ended (r.free .connect) 0 n hb := by
+  obtain ⟨e1, e2, e3, e4, e5, e6, e7, e8⟩ := he
+  have c := e2 .connect
+  simp only [if_true] at c
+  refine ⟨by simp [RSt.free, RSt.check, RSt.has, or_none, e1, c], fun k => ?_, e3, e4, e5, e6, e7, e8⟩
+  have := e2 k
+  cases k <;> simp_all [RSt.free, RSt.check, List.count_erase]
+
+theorem main_free_connect (r : RSt) (h : Handler) (hm : Main r 1 h) :
+    Main (r.free .connect) 0 h ∧ SameCb r (r.free .connect) ∧ (r.free .connect).rdReg = r.rdReg := by
+  obtain ⟨⟨⟨hok, hcnt, hconn, hcr, hnw, hnr, hfds, hone⟩, b1, b2, b3, b4, b5⟩, hh⟩ := hm
+  have c := hcnt .connect
+  simp only [expect] at c
+  refine ⟨⟨⟨⟨?_, fun k => ?_, ?_, hcr, hnw, hnr, hfds, hone⟩, b1, b2, b3, b4, b5⟩, hh⟩, ⟨rfl, rfl⟩, rfl⟩
+  · simp [RSt.free, RSt.check, RSt.has, or_none, hok, c]
+  · have := hcnt k
+    cases k <;> simp_all [RSt.free, RSt.check, List.count_erase, expect]
+  · intro hc; simp only [RSt.free, RSt.check] at hc; rw [b4] at hc; cases hc
+
+theorem runAllR_ok {σ : Type} (ovf : Bool → Nat → Int) (oracle : σ → Nat → Nat → σ × Turn) (o : σ)
+    (ishead : Bool) (max : Nat) (data : Bytes) (hasBody : Bool) (pre : Pre) :
+    OutcomeOK max (runAllR ovf oracle o ishead max data hasBody pre) := by
+  cases pre with
+  | cancel =>
+    simp only [runAllR]
+    obtain ⟨e1, e2, e3, e4, e5, e6, e7, e8⟩ := cancel_spec httpRequest 1 cons_httpRequest
+    have h7 : (cancelR httpRequest).ncb = 0 := e7
+    have h8 : (cancelR httpRequest).handedBody = 0 := e8
+    have h2 : ∀ k, (cancelR httpRequest).live.count k = 0 := fun k => by
+      rw [e2]; have : httpRequest.pConnect = true := rfl
+      simp [this]
+    refine ⟨e1, h2, e3, e4, e5, e6, h7, by omega, ?_⟩
+    simpa using h8
+  | refused =>
+    simp only [runAllR]
+    have h1 : callbackConnected (connFired httpRequest false) false hasBody =
+        failR { useH (connFired httpRequest false) with pConnect := false } := rfl
+    rw [h1]
+    have := ended_free_connect _ _ _ (by simpa using fail_spec _ 1 cons_refused)
+    exact ended_outcome max _ none [] 0 this (by omega) (by simp [RespOK]) (fun _ => rfl)
+  | connected =>
+    simp only [runAllR]
+    obtain ⟨m1, m2, m3, m4⟩ := main_connected hasBody
+    generalize callbackConnected (connFired httpRequest true) true hasBody = r1 at m1 m2 m3 m4
+    have hi0 := initSt_inv ishead max []
+    have hso := step_ok ovf 1 (initSt ishead max) .readHeader .ok [] 0 hi0 (by simp)
+    have hsr := stepR_res ovf 1 1 (initSt ishead max) .readHeader .ok [] 0 r1 m1 m2
+    rw [← stepR_erase ovf 1 (initSt ishead max) .readHeader .ok [] 0 r1] at hso
+    generalize stepR ovf 1 (initSt ishead max) .readHeader .ok [] 0 r1 = res at hso hsr
+    cases res with
+    | done resp r' =>
+      simp only [eraseR, StepOK] at hso
+      simp only [StepRRes] at hsr
+      obtain ⟨n, hn1, hn2, hn3⟩ := hsr
+      rw [m3, m4] at hn1
+      exact ended_outcome max _ resp [] n (ended_free_connect _ _ _ (by simpa using hn1)) hn2 hso hn3
+    | abort w => simp [eraseR, StepOK] at hso
+    | wait st' c k h' r' =>
+      simp only [eraseR, StepOK] at hso
+      simp only [StepRRes] at hsr
+      obtain ⟨_, hc, hk, hmax, hinv⟩ := hso
+      obtain ⟨hm', hreg', hsame'⟩ := hsr
+      simp only [List.length_nil, Nat.sub_zero] at hc hk hinv
+      have hc0 : c = 0 := by omega
+      subst hc0
+      obtain ⟨q1, q2, q3⟩ := main_free_connect r' h' hm'
+      have := loopR_ok ovf oracle (data.length + 2) o st' h' (data.drop 0) (data.length - 0) 0 0 k [snap k r']
+        (r'.free .connect) (by simp) (by omega) (by omega) (invBuf_mono hinv (by simp)) (by omega) q1
+        (by rw [q3]; exact hreg') (q2.1.trans (hsame'.1.trans m3)) (q2.2.trans (hsame'.2.trans m4))
+      rw [hmax] at this
+      exact this
+
 end Percival.Proofs.HttpRes
